@@ -30,6 +30,9 @@ RULE = ("histories of probe lines against one engine process each (auth ON): (a)
         "connection; (f) GRANT / REVOKE over several event types (all orders, repetitions, an undefined type) for "
         "users holding different permission sets on the listed types, then the permission table, can_read / "
         "can_write and STORE / QUERY per type; "
+        "(g) REVOKE / GRANT of READ / WRITE on a type for role-holding users with and without an explicit entry, then "
+        "every command kind over the type as the next request; proper signature prefixes of every length 1..63 for AUTH, "
+        "inline, connection-scoped, header and unix forms; "
         "(d) every command kind under admin / reading / writing / no-role / reserved-name / unknown / revoked "
         "users through parse_command + dispatch_command.  A case is non-trivial when the implementation "
         "answered it (no ABORT/UNKNOWN); distinct by (kind, op, identity class, command kind, result)")
@@ -257,6 +260,13 @@ def gen_fn(rng, tier, idx):
                 h.add(f"auth_verify {hx(m)} {hx(u)} {hx(s)}", op="verify", valid=valid,
                       show=f"verify_signature(msg={m[:20]!r}.., user={u}, {tag} signature)")
     h.add(f"auth_verify {hx('PING')} {hx('v' * 65)} {hx(sign('k', 'PING'))}", op="verify", valid=False)
+    good = sign("key-v1", "PING")
+    for L in range(0, 64):
+        h.add(f"auth_verify {hx('PING')} {hx('v1')} {hx(good[:L])}", op="verify", valid=False,
+              show=f"verify_signature(msg='PING', user=v1, {L}-character prefix of the signature)")
+    for extra in ("0", "00", good):
+        h.add(f"auth_verify {hx('PING')} {hx('v1')} {hx(good + extra)}", op="verify", valid=False,
+              show=f"verify_signature(msg='PING', user=v1, signature followed by {len(extra)} more characters)")
     # session tokens
     h.mk("t1", "key-t1", [])
     h.mk("t2", "key-t2", [])
@@ -422,6 +432,23 @@ def gen_gate(rng, tier, idx):
         if rng.chance(1, 2):
             h.add(f"auth_tok_revoke {hx('@{' + slot + '}')}", op="tokrevoke")
             h.tcp(newconn(), f"{stt} TOKEN @{{{slot}}}", d_st(tt), stt, {"valid": False, "user": tu}, note="revoked token")
+    # proper prefixes of the right signature, every length 1..63, for AUTH, inline and connection-scoped
+    # signatures (and the HTTP header / unix forms): only the full 64 hex characters authenticate
+    if idx == 0 or tier != "quick":
+        pu, pk = "ga", users["ga"]
+        pc = newconn()
+        h.tcp(pc, f"AUTH {pu}:{sign(pk, pu)}", "bad", "", {"valid": True, "user": pu, "auth": True}, note="AUTH (connection for the prefix lines)")
+        for L in range(1, 64):
+            stp = store("ta")
+            full, fa = sign(pk, stp), sign(pk, pu)
+            h.tcp(newconn(), f"AUTH {pu}:{fa[:L]}", "bad", "", {"valid": False, "user": pu, "auth": True}, note=f"AUTH with a {L}-character prefix of the signature")
+            h.tcp(newconn(), f"{pu}:{full[:L]}:{stp}", d_st("ta"), stp, {"valid": False, "user": pu}, note=f"inline, {L}-character prefix of the signature")
+            h.tcp(pc, f"{full[:L]}:{stp}", d_st("ta"), stp, {"valid": False, "user": pu}, note=f"connection-scoped, {L}-character prefix of the signature")
+            if L % 3 == 0 or L in (1, 2, 62, 63):
+                h.http(pu, full[:L], stp, d_st("ta"), stp, {"valid": False, "user": pu}, note=f"http header, {L}-character prefix of the signature")
+                h.unix(f"{pu}:{full[:L]}:{stp}", d_st("ta"), stp, {"valid": False, "user": pu}, note=f"unix inline, {L}-character prefix of the signature")
+        stp = store("ta")
+        h.tcp(pc, f"{sign(pk, stp)}:{stp}", d_st("ta"), stp, {"valid": True, "user": pu}, note="connection-scoped, full signature")
     # revoking a key takes effect for the next request on every form
     st = store("ta")
     cn = newconn()
@@ -709,6 +736,64 @@ def gen_multi(rng, tier, idx):
     return h
 
 
+# ------------------------------------------------------------------ (g) revocation vs roles, next request
+def gen_rolerev(rng, tier, idx):
+    """REVOKE / GRANT of READ / WRITE on one event type for users who have access through a ROLE, with and
+    without an explicit entry beforehand; then every command kind that reads / writes the type as that user
+    (the next request), a control type the REVOKE did not name, GRANT back, and REVOKE KEY at the end."""
+    h = Hist(f"rolerev{idx}", "rolerev")
+    T, C = "alpha", "beta"
+    setup_types(h, [T, C])
+    for t in (T, C):
+        h.cmd(ADMIN, d_st(t), f'STORE {t} FOR c1 PAYLOAD {{"k":1}}')
+    role_sets = [["read-only"], ["viewer"], ["editor"], ["write-only"], ["read-only", "write-only"], [], ["admin"]]
+    pres = [None, "r", "w", "rw"]
+    combos = [(rs, pre, rv) for rs in role_sets for pre in pres for rv in ((1, 0), (0, 1), (1, 1))]
+    if tier == "quick":
+        keep = [c for c in combos if c[1] is None]                       # role only, no entry: the full grid
+        rest = [c for c in combos if c[1] is not None]
+        combos = keep + [rest[(7 * i + 3 * idx) % len(rest)] for i in range(12)]
+    n = 0
+
+    def requests(u, tag):
+        for t in (T, C):
+            h.can(u, t)
+            h.cmd(u, d_st(t), f'STORE {t} FOR c1 PAYLOAD {{"k":2}}', note=f"{tag}: STORE {t}")
+            h.cmd(u, d_q(t), f"QUERY {t}", note=f"{tag}: QUERY {t}")
+            h.cmd(u, d_rp(t, [T, C]), f"REPLAY {t} FOR c1", note=f"{tag}: REPLAY {t}")
+        h.cmd(u, d_q(C, [T]), f"QUERY {C} FOLLOWED BY {T} LINKED BY k", note=f"{tag}: sequence over both")
+        h.cmd(u, d_cmp([[C], [T]]), f"PLOT COUNT OF {C} VS COUNT OF {T}", note=f"{tag}: comparison over both")
+        h.cmd(u, d_q(T), f"PLOT COUNT OF {T}", note=f"{tag}: aggregate over {T}")
+        h.cmd(u, d_rp(None, [T, C]), "REPLAY FOR c1", note=f"{tag}: whole-context REPLAY")
+
+    for rs, pre, (rr, rw) in combos:
+        n += 1
+        u = f"rr{idx}x{n}"
+        text = f'CREATE USER {u} WITH KEY "key-{u}"' + (f" WITH ROLES [{', '.join(chr(34) + r + chr(34) for r in rs)}]" if rs else "")
+        h.cmd(ADMIN, d_mku(u, f"key-{u}", rs if rs else None), text)
+        if pre:
+            pr, pw = "r" in pre, "w" in pre
+            names = ", ".join(x for x, b in (("READ", pr), ("WRITE", pw)) if b)
+            h.cmd(ADMIN, d_gr(pr, pw, [T], u), f"GRANT {names} ON {T} TO {u}")
+        if rng.chance(1, 2):
+            requests(u, f"roles {rs}, entry {pre}, before the REVOKE")
+        names = ", ".join(x for x, b in (("READ", rr), ("WRITE", rw)) if b)
+        h.cmd(ADMIN, d_rv(rr, rw, [T], u), f"REVOKE {names} ON {T} FROM {u}", note=f"roles {rs}, entry before: {pre}")
+        requests(u, f"roles {rs}, entry {pre}, next request after REVOKE {names}")
+        h.perms(u)
+        # grant it back: the next request is served again
+        h.cmd(ADMIN, d_gr(rr, rw, [T], u), f"GRANT {names} ON {T} TO {u}")
+        requests(u, f"roles {rs}, after GRANT {names} again")
+        if rng.chance(1, 3):
+            st = f'STORE {C} FOR c1 PAYLOAD {{"k":3}}'
+            h.unix(f"{u}:{sign('key-' + u, st)}:{st}", d_st(C), st, {"valid": True, "user": u}, note="before REVOKE KEY")
+            h.cmd(ADMIN, "rvk:" + hx(u), f"REVOKE KEY {u}")
+            h.unix(f"{u}:{sign('key-' + u, st)}:{st}", d_st(C), st, {"valid": False, "user": u}, note="next request after REVOKE KEY")
+            h.tcp(f"k{n}", f"{u}:{sign('key-' + u, st)}:{st}", d_st(C), st, {"valid": False, "user": u}, note="next request after REVOKE KEY")
+            h.http(u, sign('key-' + u, st), st, d_st(C), st, {"valid": False, "user": u}, note="next request after REVOKE KEY")
+    return h
+
+
 def gen_restart(rng, tier, idx):
     h = Hist(f"restart{idx}", "restart")
     setup_types(h, ["ta"])
@@ -748,6 +833,8 @@ def cases(rng, tier):
         hs.append(gen_conn(rng.fork(f"conn{i}"), tier, i))
     for i in range(2 if q else 10):
         hs.append(gen_multi(rng.fork(f"multi{i}"), tier, i))
+    for i in range(2 if q else 8):
+        hs.append(gen_rolerev(rng.fork(f"rolerev{i}"), tier, i))
     out = []
     for h in hs:
         out += h.cases
@@ -954,10 +1041,24 @@ def same(c, impl, model):
 
 # ------------------------------------------------------------------ the declarative policy (oracle side)
 class Policy:
-    """Who may do what, tracked from what the implementation actually executed."""
+    """Who may do what, tracked from what the implementation actually executed.
+
+    Besides the sets of explicit grants in force (`rd`, `wr`: the weak policy "a permission or a role"),
+    the oracle keeps what the user-management documentation says must be visible at the NEXT request:
+      nr / nw   : READ / WRITE on the type was revoked (REVOKE answered 200) and not granted again;
+      sr / sw   : READ / WRITE on the type was granted (GRANT answered 200) and not revoked since;
+      touched   : types that ever got an explicit entry for the user (others are governed by the role alone).
+    Documented rules used (docs/src/commands/user_management.md, "How Permission Override Works"):
+      - admin: always allowed;
+      - an explicit grant gives access whatever the roles;
+      - after revoking WRITE the entry denies WRITE, overriding every role;
+      - after revoking READ the entry denies READ, overriding every role - except that an entry that still
+        grants WRITE falls back to the role for READ (the one case the documentation leaves to the role);
+      - a type without any entry is governed by the role."""
 
     def __init__(self):
-        self.users = {ADMIN: {"roles": {"admin"}, "rd": set(), "wr": set(), "active": True}}
+        self.users = {}
+        self.add_user(ADMIN, ["admin"])
         self.mats = {}
 
     def known(self, u):
@@ -977,7 +1078,49 @@ class Policy:
 
     def add_user(self, u, roles):
         if u not in self.users:
-            self.users[u] = {"roles": set(roles or []), "rd": set(), "wr": set(), "active": True}
+            self.users[u] = {"roles": set(roles or []), "rd": set(), "wr": set(), "active": True,
+                             "nr": set(), "nw": set(), "sr": set(), "sw": set(), "touched": set()}
+
+    # --- what the next request must show
+    def must_deny(self, u, t, p):
+        if not self.known(u) or self.admin(u):
+            return False
+        d = self.users[u]
+        if p == "w":
+            return t in d["nw"]
+        return t in d["nr"] and not (bool(d["roles"] & (READ_ROLES - {"admin"})) and t in d["wr"])
+
+    def must_allow(self, u, t, p):
+        if not self.known(u):
+            return False
+        if self.admin(u):
+            return True
+        d = self.users[u]
+        if t in d["s" + p]:
+            return True
+        roles = (READ_ROLES if p == "r" else WRITE_ROLES) - {"admin"}
+        return t not in d["touched"] and bool(d["roles"] & roles)
+
+    # --- effects
+    def set_perm(self, u, t, p, on, sure=True):
+        """READ (p='r') / WRITE (p='w') on t switched on by a grant or off by a revocation."""
+        d = self.users[u]
+        d["touched"].add(t)
+        full = {"r": "rd", "w": "wr"}[p]
+        if on:
+            d[full].add(t)
+            d["n" + p].discard(t)
+            if sure:
+                d["s" + p].add(t)
+        else:
+            d[full].discard(t)
+            d["s" + p].discard(t)
+            d["n" + p].add(t)
+
+    def drop_entry(self, u, t):
+        d = self.users[u]
+        for k in ("rd", "wr", "nr", "nw", "sr", "sw", "touched"):
+            d[k].discard(t)
 
 
 def unhexl(s):
@@ -1066,6 +1209,18 @@ def judge_command(pol, who, desc, status, out, injected=False):
         elif kind in ("def",) + MGMT:
             if not pol.admin(who):
                 why = f"admin-only command {kind} executed (status {status}) for {who_s} who is not an admin"
+    # revocation / grant must show at this request (documented override rules, see Policy)
+    if why is None and judged and pol.known(who) and kind in ("st", "q", "rp", "cmp", "rem") and status not in ("PARSE", "PARSEERR", "PANIC", "EOF", "ABORT"):
+        p = "w" if kind == "st" else "r"
+        need = a["types"] if a.get("types") is not None else a.get("present", [])
+        word = "WRITE" if p == "w" else "READ"
+        deny = [t for t in need if pol.must_deny(who, t, p)]
+        if deny and executed:
+            why = (f"{word} on {deny} was revoked from {who!r} (REVOKE answered 200) but the next {kind} request over "
+                   f"{need} was served (status {status}); roles {sorted(pol.users[who]['roles'])}")
+        elif status == "403" and a.get("types") is not None and need and all(pol.must_allow(who, t, p) for t in need):
+            why = (f"{who!r} holds {word} on {need} (explicit grant answered 200, or role with no entry for the type) "
+                   f"but the {kind} request was refused (403); roles {sorted(pol.users[who]['roles'])}")
     # effects follow what the implementation did
     if status == "200":
         if kind == "mku":
@@ -1075,9 +1230,9 @@ def judge_command(pol, who, desc, status, out, injected=False):
         elif kind == "rv" and a["u"] in pol.users:
             for t in a["types"]:
                 if a["r"]:
-                    pol.users[a["u"]]["rd"].discard(t)
+                    pol.set_perm(a["u"], t, "r", False)
                 if a["w"]:
-                    pol.users[a["u"]]["wr"].discard(t)
+                    pol.set_perm(a["u"], t, "w", False)
         elif kind == "rem":
             pol.mats.setdefault(a["name"], a["types"])
     # a GRANT the implementation did not refuse counts as in force for every listed type, also when it
@@ -1085,9 +1240,9 @@ def judge_command(pol, who, desc, status, out, injected=False):
     if status in ("200", "400") and kind == "gr" and a.get("u") in pol.users:
         for t in a["types"]:
             if a["r"]:
-                pol.users[a["u"]]["rd"].add(t)
+                pol.set_perm(a["u"], t, "r", True, sure=(status == "200"))
             if a["w"]:
-                pol.users[a["u"]]["wr"].add(t)
+                pol.set_perm(a["u"], t, "w", True, sure=(status == "200"))
     return why
 
 
@@ -1123,8 +1278,14 @@ def judge_history(full, outs):
             if cred.get("auth"):
                 if st == "TOKEN" and not cred.get("valid"):
                     why = f"AUTH accepted without a valid signature of an active user ({c.get('note')})"
+                elif st == "TOKEN" and cred.get("user") in pol.users and not pol.users[cred["user"]]["active"]:
+                    why = f"AUTH accepted for a user whose key was revoked ({c.get('note')})"
             elif st in ("D", "TOKEN") and len(out.split(" ")) > 1 and bytes.fromhex(out.split(" ")[-1] if out.split(" ")[-1] != "-" else "").decode("utf-8", "replace") in RESERVED:
                 why = f"check_auth attributed a line to a reserved id: {c.get('note')}"
+            elif st in ("D", "TOKEN") and len(out.split(" ")) > 1 and out.split(" ")[-1] != "-" \
+                    and bytes.fromhex(out.split(" ")[-1]).decode("utf-8", "replace") in pol.users \
+                    and not pol.users[bytes.fromhex(out.split(" ")[-1]).decode("utf-8", "replace")]["active"]:
+                why = f"check_auth served a user whose key was revoked: {c.get('note')}"
             elif st == "D" and not cred.get("valid"):
                 why = f"check_auth handed the line on without valid credentials: {c.get('note')}"
             elif st == "D" and cred.get("user") is not None and bytes.fromhex(out.split(" ")[2]).decode("utf-8", "replace") != cred.get("user"):
@@ -1135,6 +1296,8 @@ def judge_history(full, outs):
             if cred.get("auth"):
                 if st == "TOKEN" and not cred.get("valid"):
                     why = f"AUTH accepted without a valid signature of an active user ({c.get('note')})"
+            elif passed and cred.get("user") in pol.users and not pol.users[cred["user"]]["active"]:
+                why = f"request of {cred['user']!r} passed the {op} gate (result {st}) after its key was revoked: {c.get('note')}"
             elif passed and not cred.get("valid"):
                 why = f"request passed the {op} gate (result {st}) without valid credentials: {c.get('note')}"
             elif passed and st not in ("PARSEERR",):
@@ -1151,11 +1314,10 @@ def judge_history(full, outs):
             if out == "OK":
                 why = "create_user accepted an over-long key"
         elif op == "grant" and out == "OK" and c["u"] in pol.users:
-            (pol.users[c["u"]]["rd"].add if c["r"] else pol.users[c["u"]]["rd"].discard)(c["t"])
-            (pol.users[c["u"]]["wr"].add if c["w"] else pol.users[c["u"]]["wr"].discard)(c["t"])
+            pol.set_perm(c["u"], c["t"], "r", bool(c["r"]))      # AuthManager::grant_permission SETS the entry
+            pol.set_perm(c["u"], c["t"], "w", bool(c["w"]))
         elif op == "revoke" and out == "OK" and c["u"] in pol.users:
-            pol.users[c["u"]]["rd"].discard(c["t"])
-            pol.users[c["u"]]["wr"].discard(c["t"])
+            pol.drop_entry(c["u"], c["t"])                       # AuthManager::revoke_permission drops it: the role decides again
         elif op == "revkey" and out == "OK" and c["u"] in pol.users:
             pol.users[c["u"]]["active"] = False
         elif op == "can":
@@ -1167,6 +1329,12 @@ def judge_history(full, outs):
                 why = f"can_read({u},{t}) holds without read permission or a reading role"
             elif f.get("w") == "1" and not pol.may_write(u, t):
                 why = f"can_write({u},{t}) holds without write permission or a writing role"
+            elif pol.known(u):
+                for p, word in (("r", "READ"), ("w", "WRITE")):
+                    if f.get(p) == "1" and pol.must_deny(u, t, p):
+                        why = f"{word} on {t!r} was revoked from {u!r} but can_{'read' if p == 'r' else 'write'} still holds; roles {sorted(pol.users[u]['roles'])}"
+                    elif f.get(p) == "0" and pol.must_allow(u, t, p):
+                        why = f"{u!r} holds {word} on {t!r} (explicit grant, or role with no entry) but can_{'read' if p == 'r' else 'write'} is false; roles {sorted(pol.users[u]['roles'])}"
         elif op == "perms":
             if out.startswith("PT ") and c["u"] in pol.users:
                 why = judge_table(pol, c["u"], perm_table(out[3:]), "get_permissions")
@@ -1174,7 +1342,10 @@ def judge_history(full, outs):
             if out == "OK" and not c.get("valid"):
                 why = "verify_signature accepted a signature that is not hmac(key, message) of an active user"
         elif op == "tokcheck":
-            if out.startswith("U ") and not c.get("live"):
+            if out.startswith("U ") and bytes.fromhex(out[2:]).decode("utf-8", "replace") in pol.users \
+                    and not pol.users[bytes.fromhex(out[2:]).decode("utf-8", "replace")]["active"]:
+                why = "validate_session_token accepted a token of a user whose key was revoked"
+            elif out.startswith("U ") and not c.get("live"):
                 why = "validate_session_token accepted a dead token"
             elif out.startswith("U ") and c.get("u") and bytes.fromhex(out[2:]).decode() != c["u"]:
                 why = "validate_session_token returned another user"
